@@ -119,13 +119,22 @@ fn build_specification(guard: &StringGuard) -> Result<Option<Specification>, syn
             let has_trim = relevant_sanitizers
                 .iter()
                 .any(|s| matches!(s, RelevantSanitizer::Trim));
+            // There may be 2 lower limits: an explicit `len_char_min` and `not_empty` (which is the
+            // same as `len_char_min = 1`). The greater one has to be respected.
             let min_len = relevant_validators
                 .iter()
-                .find_map(|v| {
+                .filter_map(|v| {
                     if let RelevantValidator::LenCharMin(value) = v {
                         Some(value.clone())
                     } else {
                         None
+                    }
+                })
+                .reduce(|a, b| match (a, b) {
+                    (ValueOrExpr::Value(a), ValueOrExpr::Value(b)) => ValueOrExpr::Value(a.max(b)),
+                    (a, b) => {
+                        let expr: syn::Expr = syn::parse_quote!(::core::cmp::Ord::max(#a, #b));
+                        ValueOrExpr::Expr(expr)
                     }
                 })
                 .unwrap_or_else(|| ValueOrExpr::Value(0));
